@@ -688,6 +688,18 @@ func (x *Exec) evalCall(env *SpecEnv, c *ast.CallExpr) specVal {
 				return env.fail("bad type %s", exprString(c.Args[1]))
 			}
 			return specVal{term: fmt.Sprintf("(and ((_ is ibox) %s) (= (itag %s) %d))", v.term, v.term, vc.typeTag(ty)), typ: tBool}
+		case "G_upd":
+			// $upd(a, i, v): the array a with element i replaced by v (ghost arrays)
+			if len(c.Args) != 3 {
+				return env.fail("$upd needs (array, index, value)")
+			}
+			a := x.evalSpec(env, c.Args[0])
+			i := x.evalSpec(env, c.Args[1])
+			v := x.evalSpec(env, c.Args[2])
+			if _, ok := a.typ.Underlying().(*types.Array); !ok {
+				return env.fail("$upd: %s is not an array", exprString(c.Args[0]))
+			}
+			return specVal{term: fmt.Sprintf("(store %s %s %s)", a.term, i.term, v.term), typ: a.typ}
 		case "G_ret":
 			// $ret(Name, i): the i-th result of the call to the function or method called Name in
 			// the function under verification (Name__2: the second such call in block order). Only
@@ -1074,8 +1086,12 @@ func (x *Exec) resolveTypeExpr(e ast.Expr, pkg *types.Package) types.Type {
 			return types.NewPointer(et)
 		}
 	case *ast.ArrayType:
-		if et := x.resolveTypeExpr(t.Elt, pkg); et != nil && t.Len == nil {
-			return types.NewSlice(et)
+		if et := x.resolveTypeExpr(t.Elt, pkg); et != nil {
+			if t.Len == nil {
+				return types.NewSlice(et)
+			}
+			// [N]T: modelled as a total SMT array, the length is not used
+			return types.NewArray(et, 1)
 		}
 	case *ast.MapType:
 		k := x.resolveTypeExpr(t.Key, pkg)
